@@ -440,7 +440,7 @@ func init() {
 			"Allocate_inRange results are required to be in the allocator's bounds and fresh, not inside the requested sub-range (the statement asks no more)",
 			"hook H1 (build tag verif) reports the allocator's real fields",
 		},
-		Oracles: map[string]func(*core.Ctx, *core.Case){"seq": c20Seq, "enum": c20Enum, "random": c20Random, "cold-concurrent": coldConcurrent, "big-fill": c20BigFill},
+		Oracles: map[string]func(*core.Ctx, *core.Case){"cold-entries": coldEntries, "seq": c20Seq, "enum": c20Enum, "random": c20Random, "cold-concurrent": coldConcurrent, "big-fill": c20BigFill},
 		Exhaustive: func(tier string) (bool, string) {
 			if tier == "thorough" {
 				return true, "all histories up to depth 4 (full alphabet, ranges 1..4) and depth 9 (reduced alphabet, ranges 1..3); longer histories sampled"
@@ -558,6 +558,7 @@ func init() {
 			}})
 		}
 		us = append(us, coldUnits(tier, "uePolicyContainer.IDGenerator", "count-alloc")...)
+		us = append(us, coldEntryUnits(tier, "uePolicyContainer.IDGenerator", "count")...)
 		return us
 	}
 	core.Register(p)
